@@ -346,3 +346,13 @@ MUTANTS = [
 REWRITES = [
     Rewrite("role-flipped-compare", MGR, "        if self._my_side > their_side:", "        if their_side < self._my_side:", desc="comparison operands swapped"),
 ]
+
+# mutants that only the two-party product (engine A5) / the round-4+5 rules catch
+MUTANTS.append(Mutant("connecting-reconnect-silent", MGR, "                    outputs=[stop_connecting,\n                             send_reconnecting,\n                             start_connecting,",
+                      "                    outputs=[stop_connecting,\n                             start_connecting,", ("C11.R8", "C11.R4"),
+                      "a Follower told to reconnect while still connecting never answers: the Leader waits in FLUSHING forever"))
+MUTANTS.append(Mutant("lost-skips-traffic-timer", MGR, "        if self._traffic is not None:\n            self._traffic.lost_connection()\n        self._stop_using_connection()",
+                      "        if self._timer is not None:\n            self._traffic.lost_connection()\n        self._stop_using_connection()", "C11.R8",
+                      "after a loss found by the timer itself the TrafficTimer stays `connected`: the next connection raises before connection_made"))
+MUTANTS.append(Mutant("oneshot-fires-synchronously", "src/wormhole/observer.py", "    def when_fired(self):\n        d = Deferred()\n",
+                      "    def when_fired(self):\n        d = Deferred()\n        if self._result is not NoResult and not self._observers:\n            d.callback(self._result)\n            return d\n", "C11.R6"))
